@@ -28,6 +28,26 @@ pub struct Ctl {
 }
 
 pub static CTL: Mutex<Option<Ctl>> = Mutex::new(None);
+/// When >= 0: every logged event is also appended (O_APPEND, one write per line) to this
+/// descriptor with a CLOCK_MONOTONIC timestamp and pid.thread-name, for the multi-process
+/// lock races.
+pub static LOCK_LOG_FD: std::sync::atomic::AtomicI32 = std::sync::atomic::AtomicI32::new(-1);
+
+pub fn now_ns() -> u128 {
+    let mut ts = libc::timespec { tv_sec: 0, tv_nsec: 0 };
+    unsafe { libc::clock_gettime(libc::CLOCK_MONOTONIC, &mut ts) };
+    (ts.tv_sec as u128) * 1_000_000_000 + ts.tv_nsec as u128
+}
+
+pub fn lock_log(line: &str) {
+    let fd = LOCK_LOG_FD.load(std::sync::atomic::Ordering::Relaxed);
+    if fd < 0 {
+        return;
+    }
+    let t = std::thread::current();
+    let s = format!("{} {}.{} {}\n", now_ns(), std::process::id(), t.name().unwrap_or("main"), line);
+    unsafe { libc::syscall(libc::SYS_write, fd, s.as_ptr(), s.len()) };
+}
 pub static CV: Condvar = Condvar::new();
 
 thread_local! {
@@ -200,6 +220,7 @@ fn gate_worker(kind: &str) -> Option<bool> {
 }
 
 fn event_done(line: String, worker: bool) {
+    lock_log(&line);
     let mut g = CTL.lock().unwrap();
     if let Some(c) = g.as_mut() {
         if c.enabled {
@@ -275,9 +296,15 @@ pub unsafe extern "C" fn open64(path: *const c_char, flags: c_int, mode: libc::m
                         c.fdmap.insert(fd, id.clone());
                     }
                     if id != "LOCK" && creat {
-                        c.log.push(format!("{} create {} {}", role(), id, if fd >= 0 { "ok" } else { "fail" }));
+                        let l = format!("{} create {} {}", role(), id, if fd >= 0 { "ok" } else { "fail" });
+                        lock_log(&l);
+                        c.log.push(l);
                     } else if id == "LOCK" {
-                        c.log.push(format!("{} openlock {}", role(), if fd >= 0 { "ok" } else { "fail" }));
+                        let l = format!("{} openlock {}", role(), if fd >= 0 { "ok" } else { "fail" });
+                        lock_log(&l);
+                        c.log.push(l);
+                    } else {
+                        lock_log(&format!("{} openchunk {}", role(), id));
                     }
                 }
             }
@@ -434,10 +461,17 @@ pub unsafe extern "C" fn flock(fd: c_int, op: c_int) -> c_int {
     guard(
         || match tracked(fd) {
             Some(id) if id == "LOCK" => {
-                let res = raw();
-                let what = if op & libc::LOCK_UN != 0 { "unlock" } else { "lock" };
-                event_done(format!("{} flock {} {}", role(), what, if res == 0 { "ok" } else { "fail" }), false);
-                res
+                if op & libc::LOCK_UN != 0 {
+                    // logged BEFORE the call: the recorded holding interval is inside the real one
+                    event_done(format!("{} flock unlock ok", role()), false);
+                    let res = raw();
+                    lock_log(&format!("{} flock unlocked", role()));
+                    res
+                } else {
+                    let res = raw();
+                    event_done(format!("{} flock lock {}", role(), if res == 0 { "ok" } else { "fail" }), false);
+                    res
+                }
             }
             _ => raw(),
         },
